@@ -147,3 +147,8 @@ func errSummary(errs []txt.Error) string {
 	}
 	return strings.Join(parts, ", ")
 }
+
+// parseSerial is the plain serial parser (panics propagate to the caller's tryRun).
+func parseSerial(text string) ([]klog.Record, []txt.Block, []txt.Error) {
+	return parser.NewSerialParser().Parse(text)
+}
